@@ -27,6 +27,7 @@ class ShadowMonitor:
         self.added_step = {}        # (id(branch), id(node)) -> current_step at event
         self.applied = []
         self.prev_lists = {}
+        self.prev_ticked = {}
         self.prev_hist = 0
         self.errs = []
         def on_branch(branch):
@@ -125,6 +126,23 @@ class ShadowMonitor:
                     return f'{where}: branch {i}: node STEP_TICKED {st} (added {sa}, current {cur})'
                 if not tk and st is not None:
                     return f'{where}: branch {i}: STEP_TICKED set for an unticked node'
+        # a node that became ticked on a branch during this step (it was not ticked, at the end of the previous step, on the
+        # branch or on the ancestor the branch was copied from) has its tick recorded for that branch, at this step
+        for i, b in enumerate(tab):
+            line = b
+            while line is not None and id(line) not in self.prev_ticked:
+                line = self.at_creation[id(line)][0]
+            before = self.prev_ticked.get(id(line), frozenset()) if line is not None else frozenset()
+            for n in b:
+                if id(n) in before or not b.is_ticked(n):
+                    continue
+                try:
+                    st = tab.stat(b, n, K.STEP_TICKED)
+                except KeyError:
+                    st = 'missing'
+                if st != cur - 1:
+                    # while the k-th rule application runs current_step is k; afterwards it is k + 1
+                    return f'{where}: branch {i}: a node became ticked on the branch during step {cur - 1} but its recorded STEP_TICKED is {st}'
         want_open = [b for b in tab if not b.closed]
         if list(tab.open) != want_open:
             return f'{where}: the open view does not list exactly the unclosed branches in order'
@@ -132,6 +150,7 @@ class ShadowMonitor:
 
     def _snap(self, tab):
         self.prev_lists = {id(b): list(b) for b in tab}
+        self.prev_ticked = {id(b): frozenset(id(n) for n in b if b.is_ticked(n)) for b in tab}
         self.prev_hist = len(tab.history)
 
     # -- monitor interface
